@@ -124,11 +124,41 @@ def split_append(k, rng, body):
     return first, last
 
 
+def split_adjacent(k, rng, body):
+    """forall k in [0, len(X ++ [e]) - 1): P(C[k], C[k + 1])   ==   (forall k in [0, len(X) - 1): P(X[k], X[k + 1]))  and
+    (len(X) >= 1  =>  P(X[len(X) - 1], e)):  the adjacent-pairs shape of 'the list is ascending' after an append"""
+    if rng.op != "and" or len(rng.args) != 2:
+        return None
+    lo, hi = rng.args
+    if not (lo.op == "<=" and lo.args[0].op == "#int" and lo.args[0].val == 0 and str(lo.args[1]) == str(k)):
+        return None
+    if not (hi.op == "<" and str(hi.args[0]) == str(k) and hi.args[1].op == "+" and len(hi.args[1].args) == 2):
+        return None
+    ln, m1 = hi.args[1].args
+    if not (ln.op == "seq.len" and m1.op == "#int" and m1.val == -1):
+        return None
+    C = ln.args[0]
+    if C.op != "seq.++" or C.args[-1].op != "seq.unit":
+        return None
+    X = Concat(*C.args[:-1]) if len(C.args) > 2 else C.args[0]
+    e = C.args[-1].args[0]
+    ph0 = Const("adj!0!%d" % next(_counter), e.sort)
+    ph1 = Const("adj!1!%d" % next(_counter), e.sort)
+    b = tm.subst_term(tm.subst_term(body, Nth(C, tm.Add(k, tm.I(1))), ph1), Nth(C, k), ph0)
+    if str(C) in str(b):
+        return None
+    fb = tm.subst_term(tm.subst_term(b, ph0, Nth(X, k)), ph1, Nth(X, tm.Add(k, tm.I(1))))
+    first = T("#forall", (k, And(lo, Lt(k, tm.Add(Len(X), tm.I(-1)))), fb), BOOL)
+    at = tm.subst(b, {k.args[0]: tm.Sub(Len(X), tm.I(1))})
+    last = resimplify(tm.subst_term(tm.subst_term(at, ph0, Nth(X, tm.Sub(Len(X), tm.I(1)))), ph1, e))
+    return first, Implies(tm.Le(tm.I(1), Len(X)), last)
+
+
 def skolemize(t):
     """drop universal binders in positive positions (bound names are globally unique constants)"""
     if t.op == "#forall":
         k, rng, body = t.args
-        sp = split_append(k, rng, body)
+        sp = split_append(k, rng, body) or split_adjacent(k, rng, body)
         if sp is not None:
             return And(skolemize(sp[0]), skolemize(sp[1]))
         m = {k.args[0]: Const("%s_sk%d" % (k.args[0].split("!")[0], next(_counter)), INT)}
